@@ -140,18 +140,29 @@ package grammar
 
 // ---------------------------------------------------------------------------------------------
 // C18: the diagram node of a state lists exactly its items, numbered like the state
-func spec_itemStr(g *Grammar, r int, d int) string { panic("spec") }
+func spec_itemStr(g *Grammar, r int, d int) string        { panic("spec") }
+func spec_itemPre(g *Grammar, r int, d int, n int) string { panic("spec") }
+
+// the text of an item: "lhs-\>" then, for each right-hand-side symbol in order, a bullet if the dot is before it and " name";
+// a bullet at the end if the dot is at the end; "lhs-\>ε" for an empty rule. spec_itemPre(g, r, d, n) is the text after n symbols.
+//@ axiom ITEM0: forall g *Grammar, r, d int :: spec_itemPre(g, r, d, 0) == g.ProductoinRules[r].LeftPart.Name + "-\\>"
+//@ axiom ITEMS: forall g *Grammar, r, d, n int :: 0 <= n && n < len(g.ProductoinRules[r].RighPart) ==>
+//@     spec_itemPre(g, r, d, n+1) == ite(n == d, spec_itemPre(g, r, d, n) + "\u2022", spec_itemPre(g, r, d, n)) + fmt.Sprintf(" %s", utils.EscapeDotGraph(utils.RemoveTempName(g.ProductoinRules[r].RighPart[n].Name)))
+//@ axiom ITEMSTR: forall g *Grammar, r, d int :: spec_itemStr(g, r, d) == ite(len(g.ProductoinRules[r].RighPart) == 0, spec_itemPre(g, r, d, 0) + "\u03b5",
+//@     ite(len(g.ProductoinRules[r].RighPart) == d, spec_itemPre(g, r, d, len(g.ProductoinRules[r].RighPart)) + "\u2022", spec_itemPre(g, r, d, len(g.ProductoinRules[r].RighPart))))
 
 //@ func (*Grammar).ItemToStr
-//@ trusted text of one item (lhs -> rhs with the dot before symbol Dot): a deterministic function of (rule, dot); the placement of the dot inside the text is not verified
 //@ props C18
-//@ ensures result == spec_itemStr(g, It.RuleIndex, It.Dot)
+//@ use ITEM0, ITEMS, ITEMSTR
+//@ requires wfRules(g) && It != nil && 0 <= It.RuleIndex && It.RuleIndex < len(g.ProductoinRules)
+//@ ensures [C18] result == spec_itemStr(g, It.RuleIndex, It.Dot)
 //@ modifies nothing
+//@ loop 0: invariant [C18] res == spec_itemPre(g, It.RuleIndex, It.Dot, idx0) && r == g.ProductoinRules[It.RuleIndex]
 
 //@ func (*Grammar).StateGraphNode
 //@ props C18
 //@ results Node
-//@ requires g != nil && IC != nil && (forall i int :: 0 <= i && i < len(IC.Items) ==> IC.Items[i] != nil)
+//@ requires wfRules(g) && okItems(g, IC)
 //@ ensures [C18] Node != nil && fresh(Node) && Node.StateNumber == IC.Index && len(Node.Children) == len(IC.Items)
 //@ ensures [C18] forall i int :: 0 <= i && i < len(IC.Items) ==> Node.Children[i] == spec_itemStr(g, IC.Items[i].RuleIndex, IC.Items[i].Dot)
 //@ modifies nothing
